@@ -35,7 +35,7 @@ var (
 
 func init() {
 	register("DBG", "debug: every rule over the whole module",
-		ruleShapeFaults(shapeConfig{label: "all", keep: notGenerated}))
+		ruleLoopShapes(notGenerated, 0, 0), ruleLastIterationWins(notGenerated, 0))
 
 	register("C19",
 		"Sound may-write analysis of the six read-only quadtree queries: every store reachable from them targets a per-call allocation or the caller's result buffer; no package-level variable is written. Decided for all schedules and all trees, modulo the stated assumptions.",
@@ -63,6 +63,7 @@ func init() {
 		"Structural necessary conditions of the GeoJSON/BSON round trip: the type-name tables of the JSON and BSON decoders agree with each other, with the GeoJSONType() constants and with the RFC 7946 nesting depths; marshal and unmarshal documents name the same members; Ring/Bound/Collection can never land in \"coordinates\"; member loops complete; NewGeometry/NewFeature total on every kind/shape. Float text round trip, properties/id/foreign members and byte-identical re-marshal are NOT decided (inside encoding/json and the bson driver).",
 		ruleGeoJSONTables,
 		ruleMemberLoops(inPkgs("geojson."), 3, 0),
+		ruleLoopShapes(inPkgs("geojson."), 3, 2),
 		ruleShapeFaults(shapeConfig{label: "geojson constructors", keep: inPkgs("geojson."), floor: 2}),
 	)
 
@@ -113,6 +114,7 @@ func init() {
 		ruleMemberLoops(inPkgs("clip."), 6, 1),
 		ruleRunOnce(inPkgs("clip."), 10),
 		ruleRegionCodes(clipRegionFuncs, true),
+		ruleLoopShapes(inPkgs("clip."), 1, 5),
 	)
 
 	register("C10",
@@ -127,6 +129,7 @@ func init() {
 		ruleRunOnce(inPkgs("maptile/tilecover."), 15),
 		ruleMemberLoops(inPkgs("maptile/tilecover."), 5, 1),
 		ruleShapeFaults(shapeConfig{label: "tilecover", keep: inPkgs("maptile/tilecover."), floor: 8}),
+		ruleLoopShapes(inPkgs("maptile/tilecover."), 1, 3),
 	)
 
 	register("C18",
@@ -153,6 +156,7 @@ func init() {
 	register("C15",
 		"Structural necessary conditions of 'a projection transforms every vertex in place': every projection helper stores f(x[i]) back to x[i] for the loop's own i (so kind, nesting and order are preserved), the bound helper projects exactly its two corners, every member loop (incl. the layer/feature loops of the MVT projection) is complete, and no certain fault exists for any kind x shape. All numeric inverse/rounding claims are NOT decided.",
 		ruleIndexPreserving("project.", 6),
+		ruleDiscardedResult(func(k string) bool { return inPkgs("project.")(k) || (inPkgs("encoding/mvt.")(k) && strings.Contains(k, "Project")) }),
 		ruleMemberLoops(func(k string) bool {
 			return inPkgs("project.")(k) || (inPkgs("encoding/mvt.")(k) && strings.Contains(k, "Project"))
 		}, 8, 0),
@@ -171,6 +175,7 @@ func init() {
 		"Structural necessary conditions of resampling: no certain fault (negative make, index) for nil/empty/1..4-vertex lines x N in {-1,0,1,2,3,free} x free interval (abstract interpretation); the two distance loops visit every segment. Spacing and counts are NOT decided.",
 		ruleShapeFaults(shapeConfig{label: "resample", keep: inPkgs("resample."), floor: 2, override: resampleParams, post: rulePost("resample", resamplePost)}),
 		ruleMemberLoops(inPkgs("resample."), 1, 2),
+		ruleLastIterationWins(inPkgs("resample."), 3),
 	)
 
 	register("C20",
@@ -180,6 +185,8 @@ func init() {
 		ruleShapeFaults(shapeConfig{label: "generic entries", keep: notGenerated, onlyGeneric: true, floor: 41}),
 		ruleNoWrite("observers", observerEntries, 25, 30),
 		ruleDiscardedResult(notGenerated),
+		ruleLoopShapes(notGenerated, 18, 25),
+		ruleLastIterationWins(notGenerated, 100),
 	)
 }
 
